@@ -1,6 +1,10 @@
 import EpgVerif.Props.C03
 import EpgVerif.Tie.DiffSites
 import EpgVerif.Props.C03Run
+import EpgVerif.Props.C03Gen
+import EpgVerif.Props.C03E
+import EpgVerif.Props.C03Prog
+import EpgVerif.Props.C03Diag
 open EpgVerif.Props.C03
 #print axioms order2_accumulates_every_term_once
 #print axioms hessian_symm
@@ -14,3 +18,14 @@ open EpgVerif.Props.C03
 #print axioms T_mixed_partial_exact
 #print axioms mixed_step_nl
 #print axioms T_mixed_partial_exact_nl
+#print axioms pairVar_value
+#print axioms scal_mixed_step
+#print axioms E_mixed_symm
+#print axioms E_mixed_zero
+#print axioms E_mixed_partial_exact_nl
+#print axioms hessian_exact
+#print axioms stepT
+#print axioms stepE
+#print axioms stepShift
+#print axioms diagVar_value
+#print axioms T_diag_partial_exact_nl
